@@ -15,6 +15,7 @@ add("C11", "checks/c11_c12_status.c", ["default-asan", "c89-plain", "custreg-pla
     "(all BFS states, every 16th walk state); a clause broken by an operation is reported once, states in which the invariant is "
     "already broken are counted and not expanded",
     exhaustive=dict(quick=True, thorough=True),
+    rule_more="control-callback answers rotated; contexts without error callback; device-owned status-byte bits 0, 1, 8..15; a service-request handler that services the request on the same context; user register groups cascaded into parent bits 0 and 9 (flavour custreg); C90 library",
     technique="runtime invariant monitor over an explicit-state breadth-first exploration of the real library (snapshot/restore by memory copy) "
               "plus random walks; oracle = the five iff-clauses of the statement on values read back through the public API",
     level_text="exploration by execution: the bounded state spaces named in the rule are enumerated completely on the compiled library "
